@@ -392,7 +392,16 @@ def main():
     if ROOT != "/verif":
         # the configs name build directories under /verif; when the framework runs from a copy
         # (a snapshot for a background run, an isolated evaluation) they live under that copy
-        cfg = json.loads(json.dumps(cfg).replace("/verif/", ROOT + "/"))
+        def _reroot(x):
+            if isinstance(x, str):
+                # (leave strings alone that an isolated evaluation already rewrote to this copy)
+                return x if ROOT in x else x.replace("/verif/", ROOT + "/")
+            if isinstance(x, list):
+                return [_reroot(y) for y in x]
+            if isinstance(x, dict):
+                return {k: _reroot(v) for k, v in x.items()}
+            return x
+        cfg = _reroot(cfg)
     work = os.path.join(ROOT, "work", prop, tier)
     os.makedirs(work, exist_ok=True)
     res = {}
